@@ -266,9 +266,27 @@ class Patched:
         return False
 
 
+def tmq(v):
+    """the rational the model sees for an encoded timeout: [num, den]; "nan" is classified by the code's test
+    `not timeout >= 0` with the negative numbers (-> -1); "-0.0" is zero"""
+    if v is None:
+        return None
+    if v == "nan":
+        return F(-1)
+    if v == "-0.0":
+        return F(0)
+    return unq(v)
+
+
 def _tm_arg(v, mode):
     if v is None:
         return None
+    if v == "nan":
+        return float("nan")
+    if v == "-0.0":
+        # the float run passes a real negative zero; the exact run (Fraction clock) passes the integer 0, because
+        # Fraction + float would round the deadline and blur the exact comparison with the model
+        return -0.0 if mode == "float" else 0
     f = unq(v)
     if mode == "float":
         return float(f)
@@ -451,8 +469,13 @@ def spec_popen(case, obs, tol=0):
             res, ret, sleeps, nc = o
             ret = unq(ret)
             sleeps = [unq(x) for x in sleeps]
-            tm = unq(op[1])
-            if collected is not None:
+            tm = tmq(op[1])
+            if tm is not None and tm < 0:
+                # a Popen is a Process: a negative (or NaN) timeout raises ValueError in every state, nothing touched
+                if res != T("ValueError") or abs(ret - t) > tol or sleeps or nc != ncalls:
+                    fails.append("op %d: wait(%s) must raise ValueError and touch nothing, got %r (slept %d, waitpid calls %d->%d)"
+                                 % (j - 1, op[1], res, len(sleeps), ncalls, nc))
+            elif collected is not None:
                 if res != T("Int", collected) or abs(ret - t) > tol or sleeps or nc != ncalls:
                     fails.append("op %d: status %d was already collected but wait(%s) gave %r (slept %d, %s s, waitpid calls %d->%d)"
                                  % (j - 1, collected, tm, res, len(sleeps), ret - t, ncalls, nc))
@@ -738,7 +761,7 @@ def spec_ops(case, obs, strict=True, tol=0):
         j += 1
         ret = unq(ret)
         sleeps = [unq(s) for s in sleeps]
-        tm = unq(op[1])
+        tm = tmq(op[1])
         if op[0] == "raw" and tm is not None and tm < 0 and p["pid"] > 0:
             pass    # wait_pid() itself has no contract for negative timeouts (Process.wait validates)
         elif op[0] == "raw" and p["pid"] <= 0:
